@@ -239,6 +239,44 @@ def run(chk):
                 rets = obs[1:1 + len(writes)]
                 if rets != [("i", len(w)) for w in writes]:
                     chk.violation("write-return", "write returned %s for writes of %s bytes" % ([show(x) for x in rets], [len(w) for w in writes]), {})
+        # ---- several handles on one path: bytes written through an append handle go to the end of the file as it is at that
+        # moment, whoever made it grow in between
+        mcases = []
+        mmeta = {}
+        for t in range(30 if quick else 600):
+            p = os.path.join(work, "m%d.txt" % t)
+            old = content(rng, rng.choice([0, 7, 100]), True, multibyte=False)
+            with open(p, "wb") as f:
+                f.write(old)
+            nh = rng.randint(2, 3)
+            lines = ["let __o = [];"] + ["let h%d = open(%s, \"a\");" % (k, lit(p)) for k in range(nh)]
+            expect = old
+            for step in range(rng.randint(2, 8)):
+                k = rng.randrange(nh)
+                piece = ("<%d:%d:%s>" % (k, step, "x" * rng.choice([0, 1, 20, 300]))).encode()
+                lines.append("write(h%d, %s); flush(h%d);" % (k, lit(piece.decode()), k))
+                expect += piece
+            lines.append("push(__o, 1);")
+            cid = "m%d" % t
+            mcases.append(Case(cid, "\n".join(lines), {"globals": "__o", "steps": 100000}))
+            mmeta[cid] = (p, expect, nh)
+        mres = core.run_cases(mcases)
+        for cid, (p, expect, nh) in mmeta.items():
+            r = mres.get(cid)
+            if r is None or r.get("outcome") != "ok":
+                if r is not None and r.get("outcome") == "panic":
+                    chk.violation("panic|" + core.panic_site_sig(r["panic"]["loc"], r["panic"]["msg"]), "file I/O panics", {"case": cid})
+                else:
+                    chk.inconc("append-handles case: %s" % ((r or {}).get("outcome")))
+                continue
+            chk.observed(("append-handles", nh, len(expect) > 200))
+            try:
+                final = open(p, "rb").read()
+            except OSError:
+                final = None
+            if final != expect:
+                chk.violation("content|a|several-handles", "%d append handles on one file, each write flushed: the file holds %r..., expected %r..." % (
+                    nh, (final or b"")[:80], expect[:80]), {"src": next(c.src for c in mcases if c.id == cid)[-600:]})
         # ---- stdin through a pipe with write schedules (real binary)
         n_s = 60 if quick else 1500
         path = os.path.join(work, "s.p2")
